@@ -11,6 +11,8 @@ import Poulpy.Lemmas.CkksDot
 import Poulpy.Lemmas.CkksXProg
 import Poulpy.Lemmas.CkksRelin
 import Poulpy.Lemmas.CkksAutNumeric
+import Poulpy.Lemmas.CkksConvSem
+import Poulpy.Lemmas.CkksCorrect
 /-!
 # C16 — the CKKS evaluator tracks precision metadata through any straight-line program
 
@@ -1748,5 +1750,490 @@ example (big : Bool) (s : List Poly) : ∃ pool', xrun env4 2 ⟨big, zk4⟩ ⟨
   ⟨pool', h, hok, ht⟩
 
 end Discharged
+
+/-! ## 11. the float → integer conversion of `to_znx` / `to_znx_at_k` (`Model/CkksConv.lean`)
+
+`pdriver ckks toznx` executes `toZnxVec` / `toZnxCst`; `./check C16` compares them with
+`CKKSPlaintextVecRnx::<F>::to_znx` and `CKKSPlaintextCstRnx::<F>::to_znx_at_k` for `F = f64, f128` on
+exactly given inputs (finite values around every boundary, NaN, infinities). -/
+
+section Conversion
+
+/-- **"never panics" of the conversion, with its exact precondition**: one coefficient panics iff the
+element type is `f64` and the value is not finite or its rounded scaled value is outside `[-2^W, 2^W)`
+(`W = 63` when `log_delta + log_budget ≤ 63`, else `127`).  It never returns an error value. -/
+theorem to_int_panic_iff (ty : FloatTy) (W ld : Nat) (x : FVal) :
+    ((∃ p, toIntW ty W ld x = .panic p) ↔ ty = .f64 ∧ ¬ x.convertible W ld) ∧ ∀ e, toIntW ty W ld x ≠ .err e :=
+  ⟨toIntW_panic_iff ty W ld x, toIntW_not_err ty W ld x⟩
+
+example : (∃ p, toIntW .f64 63 20 (.fin 1 43) = .panic p) ∧ toIntW .f64 63 20 (.fin (-1) 43) = .ok (-(2 ^ 63)) ∧
+    toIntW .f64 63 20 (.fin 3 (-21)) = .ok 2 ∧ toIntW .f64 63 20 (.fin (-3) (-21)) = .ok (-2) :=
+  ⟨(to_int_panic_iff .f64 63 20 (.fin 1 43)).1.mpr ⟨rfl, by decide⟩, by decide, by decide, by decide⟩
+
+/-- `f128` (C cast through libgcc): always a value — saturated outside the range, `0` for NaN — so the
+call succeeds with digits of a different number -/
+theorem to_int_f128_total (W ld : Nat) (x : FVal) : ∃ v, toIntW .f128 W ld x = .ok v ∧ -(2 : Int) ^ W ≤ v ∧ v < 2 ^ W :=
+  toIntW_f128_total W ld x
+
+example : toIntW .f128 63 20 (.fin 1 44) = .ok (2 ^ 63 - 1) ∧ toIntW .f128 63 20 .nan = .ok 0 ∧
+    toIntW .f128 127 40 (.inf true) = .ok (-(2 ^ 127)) := ⟨by decide, by decide, by decide⟩
+
+/-- **`to_znx` outcome, refused destination**: the three `ensure!`s come before any conversion, so an
+unsupported `log_delta`, a length mismatch or a plaintext without limbs is an error value whatever
+the coefficients are -/
+theorem to_znx_refused (ty : FloatTy) (b : Nat) (md : Meta) (n : Nat) (vals : List FVal)
+    (h : ¬ VecHeads ty b md n vals) : toZnxVec ty b md n vals = .err "other" :=
+  toZnxVec_err ty b md n vals h
+
+example : toZnxVec .f64 17 ⟨54, 10⟩ 2 [.nan, .inf false] = .err "other" :=
+  to_znx_refused .f64 17 ⟨54, 10⟩ 2 _ (by decide)
+
+/-- **`to_znx` outcome, accepted destination, convertible coefficients**: `Ok`, each coefficient holds
+the `encode_vec_i64` / `encode_vec_i128` digits of `round(x·2^log_delta)` -/
+theorem to_znx_ok (ty : FloatTy) (b : Nat) (md : Meta) (n : Nat) (vals : List FVal)
+    (hh : VecHeads ty b md n vals) (ms : List (Int × Int)) (hv : vals = ms.map (fun p => .fin p.1 p.2))
+    (hc : ∀ x ∈ vals, x.convertible (intPathW md.logDelta md.logBudget) md.logDelta) :
+    toZnxVec ty b md n vals = .ok (ms.map (fun p =>
+      encodeW (intPathW md.logDelta md.logBudget) b (divCeil md.effK b * b) (divCeil md.effK b)
+        (roundHalfAway p.1 (p.2 + md.logDelta)))) :=
+  toZnxVec_ok ty b md n vals hh ms hv hc
+
+example : toZnxVec .f64 17 ⟨20, 10⟩ 2 [.fin 1 0, .fin (-3) (-1)] = .ok [[8, 0], [-12, 0]] := by
+  exact (to_znx_ok .f64 17 ⟨20, 10⟩ 2 [.fin 1 0, .fin (-3) (-1)] (by decide) [(1, 0), (-3, -1)] rfl (by decide)).trans (by decide)
+
+/-- **`f64`: the panic** — exactly when one coefficient is not convertible (after the `ensure!`s) -/
+theorem to_znx_f64_panic (b : Nat) (md : Meta) (n : Nat) (vals : List FVal) (hh : VecHeads .f64 b md n vals)
+    (hc : ∃ x ∈ vals, ¬ x.convertible (intPathW md.logDelta md.logBudget) md.logDelta) :
+    ∃ p, toZnxVec .f64 b md n vals = .panic p :=
+  toZnxVec_f64_panic b md n vals hh hc
+
+example : ∃ p, toZnxVec .f64 52 ⟨40, 89⟩ 2 [.fin 1 87, .fin 1 0] = .panic p :=
+  to_znx_f64_panic 52 ⟨40, 89⟩ 2 _ (by decide) ⟨.fin 1 87, by simp, by decide⟩
+
+/-- **`f128`: no panic for any input** -/
+theorem to_znx_f128_no_panic (b : Nat) (md : Meta) (n : Nat) (vals : List FVal) (p : String) :
+    toZnxVec .f128 b md n vals ≠ .panic p :=
+  toZnxVec_f128_no_panic b md n vals p
+
+example : ∀ p, toZnxVec .f128 52 ⟨40, 89⟩ 2 [.fin 1 87, .nan] ≠ .panic p :=
+  to_znx_f128_no_panic 52 ⟨40, 89⟩ 2 _
+
+/-- **the magnitude limit implies the precondition up to 128 declared bits**: a value with
+`|round(x·2^log_delta)| < 2^(log_delta+log_budget-1)` is convertible when `log_delta + log_budget ≤ 128` … -/
+theorem in_range_convertible (md : Meta) (h : md.effK ≤ 128) (x : FVal) (hx : x.inRange md) :
+    x.convertible (intPathW md.logDelta md.logBudget) md.logDelta :=
+  inRange_convertible md h x hx
+
+example : (FVal.fin 1 86).convertible (intPathW 40 88) 40 := in_range_convertible ⟨40, 88⟩ (by decide) _ (by decide)
+
+/-- … **and not beyond**: with 129 declared bits `x = 2^87`, `log_delta = 40` is inside the magnitude limit
+(`2^88`) and not convertible — `to_znx` has no `log_delta + log_budget ≤ 127` guard
+(`decode_from_znx` has it) -/
+theorem in_range_not_convertible_129 : ∃ (md : Meta) (x : FVal), md.effK = 129 ∧ x.inRange md ∧
+    ¬ x.convertible (intPathW md.logDelta md.logBudget) md.logDelta :=
+  inRange_not_convertible_129
+
+example : ∃ (md : Meta) (x : FVal), md.effK = 129 ∧ x.inRange md ∧ (∃ p, toZnxVec .f64 52 md 1 [x] = .panic p) :=
+  ⟨⟨40, 89⟩, .fin 1 87, rfl, by decide, to_znx_f64_panic 52 ⟨40, 89⟩ 1 _ (by decide) ⟨.fin 1 87, by simp, by decide⟩⟩
+
+/-- **value of the digits** (C08 round trip): for `log_delta + log_budget ≤ 127` and a value inside the
+magnitude limit, decoding the written digits at the same `k` returns the value modulo `2^k`,
+the value itself when `4|v| < 2^k` -/
+theorem to_znx_digits_value (b : Nat) (md : Meta) (hb2 : 2 ≤ b) (hb : b ≤ 61) (hk1 : 1 ≤ md.effK) (hk : md.effK ≤ 127)
+    (v : Int) (hv : v.natAbs < 2 ^ (md.effK - 1)) :
+    ∃ q : Int, decodeCoefVec 128 b (divCeil md.effK b * b)
+        (encodeW (intPathW md.logDelta md.logBudget) b (divCeil md.effK b * b) (divCeil md.effK b) v)
+        = .ok (wrapN 128 (v - q * 2 ^ (divCeil md.effK b * b))) ∧ (4 * |v| < 2 ^ (divCeil md.effK b * b) → q = 0) :=
+  encodeW_decode b md hb2 hb hk1 hk v hv
+
+example : decodeCoefVec 128 17 34 (encodeW (intPathW 20 10) 17 34 2 (-(3 * 2 ^ 19))) = .ok (-(3 * 2 ^ 19)) := by
+  obtain ⟨q, h, hq⟩ := to_znx_digits_value 17 ⟨20, 10⟩ (by norm_num) (by norm_num) (by decide) (by decide) (-(3 * 2 ^ 19)) (by decide)
+  have h0 : q = 0 := hq (by norm_num [divCeil, Meta.effK])
+  subst h0
+  simpa [divCeil, Meta.effK, wrapN] using h
+
+/-- the saturated value is not the value: digits written by the `f128` path for an input inside the
+magnitude limit of 129 declared bits -/
+example : toZnxVec .f128 52 ⟨40, 89⟩ 1 [.fin 1 87] = .ok [[-8388608, 0, -1]] := by decide
+
+end Conversion
+
+/-! ## 12. composites on tracked states: `mul_add` / `mul_sub`, the dot products -/
+
+section Composites
+open Core Core.Ops Ckks.Sem Ckks.CoreSem
+
+/-- no rotation keys: the environment of the examples of §12–13 -/
+def env4z : Env := ⟨4, [], 53⟩
+def env4z_ok : EnvOK env4z := ⟨by decide, by decide⟩
+/-- a three-limb destination -/
+def xZ3 : DCt := ⟨{ base2k := 4, k := 12, n := 2, cols := [[[0, 0], [0, 0], [0, 0]], [[0, 0], [0, 0], [0, 0]]] }, ⟨0, 0⟩⟩
+def pool3 : DPool := [xA, xA, xZ3]
+def pool3_ok : AllOK env4z 2 1 pool3 := by
+  intro c hc
+  simp only [pool3, List.mem_cons, List.not_mem_nil, or_false] at hc
+  rcases hc with rfl | rfl | rfl <;> exact ⟨by decide, rfl, rfl, by decide⟩
+def pool3_S : ∀ c ∈ pool3, c.g.size = 3 := by
+  intro c hc
+  simp only [pool3, List.mem_cons, List.not_mem_nil, or_false] at hc
+  rcases hc with rfl | rfl | rfl <;> rfl
+
+def pool3_inv : Inv env4z (DPool.cts pool3) := by
+  intro c hc
+  simp only [pool3, DPool.cts, List.map_cons, List.map_nil, List.mem_cons, List.not_mem_nil, or_false] at hc
+  rcases hc with rfl | rfl | rfl <;> (show _ ≤ _; decide)
+
+/-- the toy parameter set of the examples (radix 4, `N = 2`, three limbs, keys of three rows) and its side conditions -/
+def pset4 (big : Bool) : ParamSet := ⟨4, big, 2, 3, 3⟩
+theorem pset4_room (big : Bool) : (pset4 big).Room := by cases big <;> decide
+
+theorem zk43_entry (j q : Nat) : ∀ x ∈ zk43.toPMat.entry j q, x = 0 := by
+  intro x hx
+  have hz : zk43.toPMat.entry j q = [0, 0] ∨ zk43.toPMat.entry j q = Hal.zeroP 2 := by
+    unfold Hal.PMat.entry Hal.limbOr0
+    rcases KsNum.getD_cases (((zk43.toPMat.data.getD j []).getD (q % zk43.toPMat.colsOut) [])) (q / zk43.toPMat.colsOut) (Hal.zeroP 2) with h | h
+    · right; exact h
+    · left
+      rcases KsNum.getD_cases (zk43.toPMat.data.getD j []) (q % zk43.toPMat.colsOut) [] with h2 | h2
+      · rw [h2] at h; cases h
+      · rcases KsNum.getD_cases zk43.toPMat.data j [] with h3 | h3
+        · rw [h3] at h2; cases h2
+        · have : ∀ c ∈ zk43.toPMat.data, ∀ col ∈ c, ∀ l ∈ col, l = [0, 0] := by decide
+          exact this _ h3 _ h2 _ h
+  rcases hz with h | h <;> rw [h] at hx <;> (simp [Hal.zeroP] at hx; rcases hx with rfl | rfl <;> rfl)
+
+/-- the zero tensor key `zk43` as a well-formed key for the secret `1 + X` (noise lists `zkEL'`, `‖·‖∞ ≤ 512`) -/
+def zk43_wf (big : Bool) : TskWF env4z 2 3 3 ⟨big, zk43⟩ [[1, 1]] 512 where
+  hgb := rfl
+  hgn := rfl
+  hci := rfl
+  hco := rfl
+  hd1 := rfl
+  hM := Ks.entry_length zk43.toPMat 2 rfl (by decide)
+  hS := show (3 : Nat) ≤ 3 by decide
+  hD := show (3 : Nat) ≤ 3 by decide
+  hcov1 := show (3 : Nat) ≤ 3 by decide
+  hcov2 := show (3 : Nat) ≤ 3 by decide
+  hs := by simp
+  hs1 := rfl
+  hkey := ⟨zkEL', fun _ _ => [0, 0],
+    (by
+      intro i r
+      unfold zkEL'
+      split
+      · exact Ks.keyErrL_length 2 4 _ zk43.toKey _ i r (by decide) (Ks.entry_length zk43.toPMat 2 rfl (by decide)) (fun _ => rfl)
+      · rfl),
+    (fun _ _ => rfl),
+    (by
+      intro i hi r hr
+      have hi0 : i = 0 := by omega
+      subst hi0
+      have hr3 : r < 3 := hr
+      have : zkEL' 0 r = zkEL 0 r := by unfold zkEL'; rw [if_pos ⟨by omega, hr3⟩]
+      rw [this]
+      exact (zk43_adm big).hkey 0 (by omega) r hr),
+    (by
+      intro i r
+      unfold zkEL'
+      split
+      · next h =>
+        obtain ⟨h1, h2⟩ := h
+        have hi0 : i = 0 := by omega
+        subst hi0
+        interval_cases r <;> decide
+      · decide)⟩
+  hK := by
+    intro j q x hx
+    rw [zk43_entry j q x hx]
+    norm_num
+  hE0 := by norm_num
+
+/-- no automorphism key at all (the metadata model knows no rotation index either) -/
+def noKeys_wf : AtkWF env4z 2 3 3 ⟨[], none⟩ [[1, 1]] 512 0 where
+  hrot := by intro k hk; simp [env4z] at hk
+  hkeys := by
+    intro key hkey
+    rcases hkey with ⟨k, hk⟩ | hk
+    · simp [AutKeys.get] at hk
+    · cases hk
+
+def tskNum4 (big : Bool) : TskNum env4z 2 3 ⟨big, zk43⟩ [[1, 1]] (2 ^ (env4z.base2k - 1)) 512 :=
+  (zk43_wf big).toNum (p := pset4 big) (pset4_room big) rfl rfl
+def atkNum4 (big : Bool) : AtkNum env4z 2 3 big ⟨[], none⟩ [[1, 1]] (2 ^ (env4z.base2k - 1)) 512 0 :=
+  noKeys_wf.toNum (p := pset4 big) (pset4_room big) rfl
+def roomPt4 (big : Bool) : ((3 : Nat) : Int) * (((2 : Nat) : Int) * 2 ^ env4z.base2k * 2 ^ env4z.base2k) + 8 ≤ 2 ^ (KsDec.bitsOf big - 2) := by
+  cases big <;> decide
+
+/-- **`accumulate_unnormalized` + the final normalisation**: the first product `d0`, every further term (a `TermSpec`: what its product
+into a scratch ciphertext decodes to, within an absolute error) added un-normalised, one `glwe_normalize_assign` -/
+theorem accumulate_sem {env : Env} (he : EnvOK env) {N r : Nat} (β0 : Nat) (Sok : List Poly → Prop)
+    (terms : List ((DCt → Outcome DCt) × (Ct → Res Ct) × (List Poly → Nat → ℚ) × (List Poly → ℚ)))
+    {sz : Nat} (hts : ∀ x ∈ terms, TermSpec env N r sz β0 Sok x.1 x.2.1 x.2.2.1 x.2.2.2)
+    {d0 : DCt} (hd : DOK env N r d0) (hsz0 : d0.g.size = sz) (hβd : d0.md.logBudget ≤ β0)
+    (hfit : ((terms.length : Int) + 1) * half env.base2k ≤ 2 ^ 62) {first : Outcome DCt} (hfirst : first = .ok d0) {mfin : Ct}
+    (hm : (terms.map (fun x => x.2.1)).foldl (accStep env) (.ok d0.ct) = .ok mfin) :
+    ∃ c', dAccumulate env N first (terms.map (fun x => x.1)) = .ok c' ∧ c'.ct = mfin ∧ DOK env N r c' ∧
+      c'.g.size = d0.g.size ∧ c'.md.logBudget ≤ d0.md.logBudget ∧
+      ∀ s, Sok s → ∀ t, t < N → Near (decC s c' t) (decC s d0 t + (terms.map (fun x => x.2.2.1 s t)).sum) (wrap c')
+        ((terms.map (fun x => x.2.2.2 s + sn r s * (2 ^ β0 / 2 ^ (env.base2k * d0.g.size)))).sum) :=
+  dAccumulate_sem he β0 Sok terms hts hd hsz0 hβd hfit hfirst hm
+
+example : ∃ c', dAccumulate env4 2 (.ok xA) [] = .ok c' ∧ c'.ct = xA.ct :=
+  let ⟨c', h, hc, _⟩ := accumulate_sem (env := env4) env4_ok (N := 2) (r := 1) 8 (fun _ => True) [] (by simp) xA_ok rfl (by decide)
+    (by norm_num [Ckks.CoreSem.half, env4]) rfl (mfin := xA.ct) rfl
+  ⟨c', h, hc⟩
+
+/-- **every call the metadata model accepts is admissible** (ciphertexts of `S` limbs, numerically well-formed keys) -/
+theorem call_admissible_numeric {env : Env} (he : EnvOK env) {N S : Nat} (hN : 0 < N) {mk : MulKey} {ak : AutKeys} {s : List Poly}
+    {Kb Emax : Int} {Ua : ℚ} (ht : TskNum env N S mk s Kb Emax) (hk : AtkNum env N S mk.big ak s Kb Emax Ua)
+    (hroomPt : (S : Int) * (N * 2 ^ env.base2k * 2 ^ env.base2k) + 8 ≤ 2 ^ (KsDec.bitsOf mk.big - 2))
+    {pool : DPool} (hp : AllOK env N 1 pool) (hS : ∀ c ∈ pool, c.g.size = S) (hI : Inv env (DPool.cts pool))
+    (op : XOp) (hop : OpOK env N S ak (DPool.cts pool) op)
+    {mp : Ckks.Pool} (hm : stepR env (DPool.cts pool) op.toOp = .ok mp) :
+    XAdm env N 1 mk ak s (UcOf env N S mk s Emax) Ua pool op :=
+  xadm_numeric he hN ht hk hroomPt hp hS hI op hop hm
+
+example (big : Bool) : XAdm env4z 2 1 ⟨big, zk43⟩ ⟨[], none⟩ [[1, 1]] (UcOf env4z 2 3 ⟨big, zk43⟩ [[1, 1]] 512) 0 pool3 (.mul 2 0 1) :=
+  call_admissible_numeric env4z_ok (by norm_num) (tskNum4 big) (atkNum4 big) (roomPt4 big) pool3_ok pool3_S pool3_inv (.mul 2 0 1) trivial
+    (mp := ([⟨⟨4, 8⟩, 3⟩, ⟨⟨4, 8⟩, 3⟩, ⟨⟨4, 4⟩, 3⟩] : Ckks.Pool)) (by decide)
+
+/-- **`ckks_mul_add_ct_into` / `ckks_mul_sub_ct_into`** on tracked states: the product of `a`, `b` goes to `take_mul_tmp(dst)`, then the
+normalising in-place sum; slot `d` holds `M d ± M a ⋆ M b` within the product's budget plus `σ` units for the sum -/
+theorem mul_add_ct_tracked {env : Env} (he : EnvOK env) {N r : Nat} {mk : MulKey} {ak : AutKeys} {pool : DPool}
+    (hp : AllOK env N r pool) {sub : Bool} {d a b : Nat} {mp : Ckks.Pool} (hm : stepR env (DPool.cts pool) (.mulAddCt d a b) = .ok mp)
+    (s : List Poly) {Uc : ℚ} (hUc : 0 ≤ Uc)
+    (hadm : ∀ cd ca cb, pool[d]? = some cd → pool[a]? = some ca → pool[b]? = some cb →
+      ∀ mt, mulInto env (tmpLike N cd).ct ca.ct cb.ct = .ok mt → ∀ q, mulCtParams env (tmpLike N cd).ct ca.ct cb.ct = .ok q →
+        MulAdm env N r s Uc (tmpLike N cd) ca cb (dMulInto env N mk (tmpLike N cd) ca cb) q) :
+    XGoal env N r mk ak s pool (.mulAdd sub d a b) mp
+      (fun τ => specMulAdd N (sn r s) Uc (ulpAt env mp d) (tmpUlp env (DPool.cts pool) d (prodCt env (DPool.cts pool) a b))
+        (mdAt (DPool.cts pool) a).logDelta (mdAt (DPool.cts pool) b).logDelta sub τ d a b) :=
+  xstep_mulAdd he hp hm s hUc hadm
+
+example (big sub : Bool) : ∃ pool', xstep env4z 2 ⟨big, zk43⟩ ⟨[], none⟩ pool3 (.mulAdd sub 2 0 1) = .ok pool' ∧ AllOK env4z 2 1 pool' :=
+  have hm : stepR env4z (DPool.cts pool3) (.mulAddCt 2 0 1) = .ok ([⟨⟨4, 8⟩, 3⟩, ⟨⟨4, 8⟩, 3⟩, ⟨⟨0, 0⟩, 3⟩] : Ckks.Pool) := by decide
+  let ⟨p, h, _, hok, _⟩ := mul_add_ct_tracked (sub := sub) env4z_ok pool3_ok hm [[1, 1]] (UcOf_nonneg (by norm_num))
+    (call_admissible_numeric env4z_ok (by norm_num) (tskNum4 big) (atkNum4 big) (roomPt4 big) pool3_ok pool3_S pool3_inv (.mulAdd sub 2 0 1) trivial hm)
+  ⟨p, h, hok⟩
+
+/-- **`ckks_mul_add_pt_vec_znx_into` / `ckks_mul_sub_pt_vec_znx_into`** on tracked states — no contract -/
+theorem mul_add_pt_tracked {env : Env} (he : EnvOK env) {N r : Nat} (hN : 0 < N) {mk : MulKey} {ak : AutKeys} {pool : DPool}
+    (hp : AllOK env N r pool) {sub : Bool} {d a : Nat} {pt : Pt} {pg : Col} (hpt : PtOK env N pt pg) {mp : Ckks.Pool}
+    (hm : stepR env (DPool.cts pool) (.mulAddPtZnx d a pt) = .ok mp)
+    (hhi : ∀ cd ca, pool[d]? = some cd → pool[a]? = some ca → ∀ q, mulPtParams env (tmpLike N cd).ct ca.ct pt.md pt.maxK = .ok q →
+      (Core.cnvOffsetSplit env.base2k q.cnv).1 ≤ divCeil ca.md.effK env.base2k + pt.size - 1)
+    (hroom : (pt.size : Int) * (N * 2 ^ env.base2k * 2 ^ env.base2k) + 8 ≤ 2 ^ (KsDec.bitsOf mk.big - 2)) (s : List Poly) :
+    XGoal env N r mk ak s pool (.mulAddPt sub d a pt pg) mp
+      (fun τ => specMulAddPt env N (sn r s) (ulpAt env mp d) (tmpUlp env (DPool.cts pool) d (prodPt env (DPool.cts pool) a pt))
+        (mdAt (DPool.cts pool) a).logDelta sub τ d a pt pg) :=
+  xstep_mulAddPt he hN hp hpt hm hhi hroom s
+
+example (big sub : Bool) : ∃ pool', xstep env4z 2 ⟨big, zk43⟩ ⟨[], none⟩ pool3 (.mulAddPt sub 2 0 ptOne pgOne) = .ok pool' ∧ AllOK env4z 2 1 pool' :=
+  have hm : stepR env4z (DPool.cts pool3) (.mulAddPtZnx 2 0 ptOne) = .ok ([⟨⟨4, 8⟩, 3⟩, ⟨⟨4, 8⟩, 3⟩, ⟨⟨0, 0⟩, 3⟩] : Ckks.Pool) := by decide
+  have hadm := call_admissible_numeric env4z_ok (by norm_num) (tskNum4 big) (atkNum4 big) (roomPt4 big) pool3_ok pool3_S pool3_inv
+    (.mulAddPt sub 2 0 ptOne pgOne) ⟨⟨by decide, by decide⟩, by decide⟩ hm
+  let ⟨p, h, _, hok, _⟩ := mul_add_pt_tracked (mk := ⟨big, zk43⟩) (ak := ⟨[], none⟩) (sub := sub) env4z_ok (by norm_num) pool3_ok hadm.1 hm hadm.2.1 hadm.2.2 [[1, 1]]
+  ⟨p, h, hok⟩
+
+/-- **`ckks_dot_product_pt_vec_znx`** on tracked states — no contract: slot `d` holds `Σᵢ M aᵢ ⋆ ptᵢ` -/
+theorem dot_pt_tracked {env : Env} (he : EnvOK env) {N r : Nat} (hN : 0 < N) {mk : MulKey} {ak : AutKeys} {pool : DPool}
+    (hp : AllOK env N r pool) {d : Nat} {as : List Nat} {pt : Pt} {pgs : List Col} (hlen : pgs.length = as.length)
+    (hpt : ∀ pg ∈ pgs, PtOK env N pt pg) {mp : Ckks.Pool}
+    (hm : stepR env (DPool.cts pool) (.dotPtZnx d as pt) = .ok mp)
+    (hhi : ∀ cd, pool[d]? = some cd → ∀ a ∈ as, ∀ ca, pool[a]? = some ca → ∀ res : Ct, res.size = cd.g.size →
+      ∀ q, mulPtParams env res ca.ct pt.md pt.maxK = .ok q →
+        (Core.cnvOffsetSplit env.base2k q.cnv).1 ≤ divCeil ca.md.effK env.base2k + pt.size - 1)
+    (hroom : (pt.size : Int) * (N * 2 ^ env.base2k * 2 ^ env.base2k) + 8 ≤ 2 ^ (KsDec.bitsOf mk.big - 2)) (s : List Poly) :
+    XGoal env N r mk ak s pool (.dotPt d as pt pgs) mp (fun τ => specDotPt env N (sn r s) (DPool.cts pool) mp τ d as pt pgs) :=
+  xstep_dotPt he hN hp hlen hpt hm hhi hroom s
+
+example (big : Bool) : ∃ pool', xstep env4z 2 ⟨big, zk43⟩ ⟨[], none⟩ pool3 (.dotPt 2 [0, 1] ptOne [pgOne, pgOne]) = .ok pool' ∧ AllOK env4z 2 1 pool' :=
+  have hm : stepR env4z (DPool.cts pool3) (.dotPtZnx 2 [0, 1] ptOne) = .ok ([⟨⟨4, 8⟩, 3⟩, ⟨⟨4, 8⟩, 3⟩, ⟨⟨4, 4⟩, 3⟩] : Ckks.Pool) := by decide
+  have hadm := call_admissible_numeric env4z_ok (by norm_num) (tskNum4 big) (atkNum4 big) (roomPt4 big) pool3_ok pool3_S pool3_inv
+    (.dotPt 2 [0, 1] ptOne [pgOne, pgOne]) ⟨rfl, by intro pg hpg; simp at hpg; subst hpg; exact ⟨by decide, by decide⟩, by decide⟩ hm
+  let ⟨p, h, _, hok, _⟩ := dot_pt_tracked (mk := ⟨big, zk43⟩) (ak := ⟨[], none⟩) env4z_ok (by norm_num) pool3_ok hadm.1 hadm.2.1 hm hadm.2.2.1 hadm.2.2.2 [[1, 1]]
+  ⟨p, h, hok⟩
+
+/-- **`ckks_dot_product_ct`, single pair and un-fused path** on tracked states, under the product contract of every pair -/
+theorem dot_ct_unfused_tracked {env : Env} (he : EnvOK env) {N r : Nat} (hN : 0 < N) {mk : MulKey} {ak : AutKeys} {pool : DPool}
+    (hp : AllOK env N r pool) {d : Nat} {as bs : List Nat} {mp : Ckks.Pool}
+    (hm : stepR env (DPool.cts pool) (.dotCt d as bs) = .ok mp) (s : List Poly) {Uc : ℚ} (hUc : 0 ≤ Uc)
+    (hun : ∀ xs ys, dgetAll pool d as = some xs → dgetAll pool d bs = some ys →
+      xs.length = 1 ∨ dotUniform (xs.map DCt.ct) (ys.map DCt.ct) = false)
+    (hadm : ∀ cd, pool[d]? = some cd → ∀ ab ∈ as.zip bs, ∀ ca cb, pool[ab.1]? = some ca → pool[ab.2]? = some cb →
+      DotAdm env N r mk s Uc cd.g.size ca cb) :
+    XGoal env N r mk ak s pool (.dotCt d as bs) mp (fun τ => specDotCt env N (sn r s) Uc (DPool.cts pool) mp τ d as bs) :=
+  xstep_dotCt he hN hp hm s hUc hun hadm
+
+example (big : Bool) : ∃ pool', xstep env4z 2 ⟨big, zk43⟩ ⟨[], none⟩ pool3 (.dotCt 2 [0] [1]) = .ok pool' ∧ AllOK env4z 2 1 pool' :=
+  have hm : stepR env4z (DPool.cts pool3) (.dotCt 2 [0] [1]) = .ok ([⟨⟨4, 8⟩, 3⟩, ⟨⟨4, 8⟩, 3⟩, ⟨⟨4, 4⟩, 3⟩] : Ckks.Pool) := by decide
+  have hadm := call_admissible_numeric env4z_ok (by norm_num) (tskNum4 big) (atkNum4 big) (roomPt4 big) pool3_ok pool3_S pool3_inv
+    (.dotCt 2 [0] [1]) (fun cs ds h1 _ => Or.inl (by rw [getAll_length h1]; rfl)) hm
+  let ⟨p, h, _, hok, _⟩ := dot_ct_unfused_tracked (ak := ⟨[], none⟩) env4z_ok (by norm_num) pool3_ok hm [[1, 1]] (UcOf_nonneg (by norm_num)) hadm.1 hadm.2
+  ⟨p, h, hok⟩
+
+/-- **`ckks_mul_many`** on tracked states: the balanced product tree (`mul_many_rec`) into scratch ciphertexts, under the product contract
+on the triples it executes; the tracked result is `mmTrack`, computed along the metadata recursion (one product node per `ckks_mul_into`,
+an aligned copy for a single input) -/
+theorem mul_many_tracked {env : Env} (he : EnvOK env) {N r : Nat} {mk : MulKey} {ak : AutKeys} {pool : DPool}
+    (hp : AllOK env N r pool) {d : Nat} {as : List Nat} {mp : Ckks.Pool}
+    (hm : stepR env (DPool.cts pool) (.mulMany d as) = .ok mp) (s : List Poly) {Uc : ℚ} {S : Nat}
+    (hall : MulAdmAll env N r mk s S (UcScaled env Uc))
+    (hdS : ∀ cd, pool[d]? = some cd → cd.g.size ≤ S)
+    (hasS : ∀ a ∈ as, ∀ ca, pool[a]? = some ca → ca.g.size ≤ S ∧ ca.md.effK ≤ S * env.base2k) :
+    XGoal env N r mk ak s pool (.mulMany d as) mp (fun τ => specMulMany env N (sn r s) Uc (DPool.cts pool) τ d as) :=
+  xstep_mulMany he hp hm s hall hdS hasS
+
+example (big : Bool) : ∃ pool', xstep env4z 2 ⟨big, zk43⟩ ⟨[], none⟩ pool3 (.mulMany 2 [0, 1, 0]) = .ok pool' ∧ AllOK env4z 2 1 pool' :=
+  have hm : stepR env4z (DPool.cts pool3) (.mulMany 2 [0, 1, 0]) = .ok ([⟨⟨4, 8⟩, 3⟩, ⟨⟨4, 8⟩, 3⟩, ⟨⟨4, 0⟩, 3⟩] : Ckks.Pool) := by decide
+  have hadm := call_admissible_numeric env4z_ok (by norm_num) (tskNum4 big) (atkNum4 big) (roomPt4 big) pool3_ok pool3_S pool3_inv
+    (.mulMany 2 [0, 1, 0]) trivial hm
+  let ⟨S, h1, h2, h3⟩ := hadm
+  let ⟨p, h, _, hok, _⟩ := mul_many_tracked (ak := ⟨[], none⟩) env4z_ok pool3_ok hm [[1, 1]] h1 h2 h3
+  ⟨p, h, hok⟩
+
+end Composites
+
+/-! ## 13. `ckks_program_correct` -/
+
+section Correct
+open Core Core.Ops Ckks.Sem Ckks.CoreSem
+
+/-- **no call of the fragment changes the number of limbs of a ciphertext** -/
+theorem limbs_preserved {env : Env} {P P' : Ckks.Pool} (op : XOp) (h : stepR env P op.toOp = .ok P') : sizes P' = sizes P :=
+  stepR_sizes op h
+
+example : sizes ([⟨⟨4, 8⟩, 3⟩, ⟨⟨4, 8⟩, 3⟩, ⟨⟨4, 4⟩, 3⟩] : Ckks.Pool) = sizes (DPool.cts pool3) :=
+  limbs_preserved (env := env4z) (.mul 2 0 1) (by decide)
+
+/-- **every accepted ct × ct / ct × plaintext product is in the covered offset regime** (`cnv_offset_hi ≤ La + Lb − 1`) -/
+theorem mul_offset_regime {env : Env} (hb : 1 ≤ env.base2k) {dst a b : Ct} {q : MulP} (h : mulCtParams env dst a b = .ok q)
+    (ha : 1 ≤ a.md.effK) :
+    (Core.cnvOffsetSplit env.base2k q.cnv).1 ≤ divCeil a.md.effK env.base2k + divCeil b.md.effK env.base2k - 1 :=
+  mulCt_hhi hb h ha
+
+example : (Core.cnvOffsetSplit 4 12).1 ≤ divCeil xA.md.effK 4 + divCeil xA.md.effK 4 - 1 :=
+  mul_offset_regime (env := env4z) (by decide) (dst := xZ3.ct) (a := xA.ct) (b := xA.ct) (q := ⟨4, 4, 12⟩) (by decide) (by decide)
+
+theorem mul_pt_offset_regime {env : Env} (hb : 1 ≤ env.base2k) {dst a : Ct} {pt : Pt} (hbk : env.base2k = pt.base2k) {q : MulP}
+    (h : mulPtParams env dst a pt.md pt.maxK = .ok q) (ha : 1 ≤ a.md.effK) :
+    (Core.cnvOffsetSplit env.base2k q.cnv).1 ≤ divCeil a.md.effK env.base2k + pt.size - 1 :=
+  mulPt_hhi hb hbk h ha
+
+example : ∀ q, mulPtParams env4z xZ3.ct xA.ct ptOne.md ptOne.maxK = .ok q →
+    (Core.cnvOffsetSplit 4 q.cnv).1 ≤ divCeil xA.md.effK 4 + ptOne.size - 1 :=
+  fun _ h => mul_pt_offset_regime (env := env4z) (by decide) rfl h (by decide)
+
+/-- **numeric admissibility of the out-of-place automorphisms** (`dsize = 1`): from `AutKeyNum` and the covered regime of both the
+operand and the destination -/
+theorem aut_into_adm_numeric {env : Env} (he : EnvOK env) {N r : Nat} {big : Bool} {dst a : DCt} (hd : DOK env N r dst) (ha : DOK env N r a)
+    {m : Ct} (hm : shiftInto env dst.ct a.ct 0 = .ok m) {key : Ks.Key} {s : List Poly} {gInv : Int} {EL KL : ℕ → ℕ → Poly} {Kb Emax : Int}
+    (hk : AutKeyNum env N r big key s gInv EL KL Kb Emax)
+    (hcA1 : a.g.size ≤ key.mat.size) (hcA2 : a.g.size ≤ key.mat.rows) (hcD1 : dst.g.size ≤ key.mat.size) (hcD2 : dst.g.size ≤ key.mat.rows) :
+    AutIntoAdm env N big s
+      ((((key.mat.colsIn * (key.mat.rows * (N * 2 ^ (env.base2k - 1) * Emax))) * 2 ^ (key.base2k * (dst.g.size - key.mat.size)) : Int) : ℚ)
+        + ((1 + C02L.snorm (min r (s.map (AutoMul.σ gInv)).length) (s.map (AutoMul.σ gInv)) : Int) : ℚ)) key dst a :=
+  autIntoAdm_numeric he hd ha hm hk hcA1 hcA2 hcD1 hcD2
+
+/-- C03's closed key `exKeyG3` (Galois element 3, one row) as a numerically well-formed automorphism key -/
+theorem exKeyG3_num (big : Bool) : AutKeyNum env4 2 1 big KsDec.exKeyG3 KsDec.exSk2 3 exEL' (fun _ _ => [0, 0]) 1 16 where
+  hkb := rfl
+  hd := rfl
+  hg := KsDec.exG3_ok
+  hsk := by intro p hp; simp [KsDec.exSk2] at hp; subst hp; rfl
+  hinv := by intro s hs; simp [KsDec.exSk2] at hs; subst hs; decide
+  hrin := by decide
+  hrout := by decide
+  hc0 := by decide
+  hM := Ks.entry_length KsDec.exKeyG3.mat 2 rfl (by decide)
+  hS := by decide
+  hs := by decide
+  hEL := by
+    intro i r
+    unfold exEL'
+    split
+    · exact Ks.keyErrL_length 2 4 _ KsDec.exKeyG3 _ i r (by decide) (Ks.entry_length KsDec.exKeyG3.mat 2 rfl (by decide)) (fun _ => rfl)
+    · rfl
+  hKL := fun _ _ => rfl
+  hkey := by
+    intro i hi r hr
+    have hi0 : i = 0 := by have : i < 1 := hi; omega
+    have hr0 : r = 0 := by have : r < 1 := hr; omega
+    subst hi0; subst hr0
+    have : exEL' 0 0 = KsDec.exELG3 0 0 := by unfold exEL'; rw [if_pos ⟨by omega, by omega⟩]
+    rw [this]
+    exact KsDec.exG3_key 0 (by decide) 0
+  hK0 := by norm_num
+  hK := by
+    intro j q x hx
+    have hz : ∀ c ∈ KsDec.exKeyG3.mat.data, ∀ col ∈ c, ∀ l ∈ col, ∀ y ∈ l, |y| ≤ (1 : Int) := by decide
+    unfold Hal.PMat.entry Hal.limbOr0 at hx
+    rcases KsNum.getD_cases (((KsDec.exKeyG3.mat.data.getD j []).getD (q % KsDec.exKeyG3.mat.colsOut) [])) (q / KsDec.exKeyG3.mat.colsOut)
+      (Hal.zeroP KsDec.exKeyG3.mat.n) with h | h
+    · rw [h] at hx; exact KsNum.zeroP_entries _ 1 (by norm_num) x hx
+    · rcases KsNum.getD_cases (KsDec.exKeyG3.mat.data.getD j []) (q % KsDec.exKeyG3.mat.colsOut) [] with h2 | h2
+      · rw [h2] at h; cases h
+      · rcases KsNum.getD_cases KsDec.exKeyG3.mat.data j [] with h3 | h3
+        · rw [h3] at h2; cases h2
+        · exact hz _ h3 _ h2 _ h x hx
+  hE0 := by norm_num
+  hE := by
+    intro i r
+    unfold exEL'
+    split
+    · next h =>
+      obtain ⟨h1, h2⟩ := h
+      have hi0 : i = 0 := by omega
+      have hr0 : r = 0 := by omega
+      subst hi0; subst hr0
+      decide
+    · decide
+  hroom := by cases big <;> (show ((1 * 1 : Nat) : Int) * (((2 : Nat) : Int) * 2 ^ (4 - 1) * 1) + (2 ^ (4 - 1) + 2 ^ 4) + 8 ≤ _; norm_num [KsDec.bitsOf])
+
+example (big : Bool) : ∃ U, AutIntoAdm env4 2 big KsDec.exSk2 U KsDec.exKeyG3 xRot xRot :=
+  ⟨_, aut_into_adm_numeric (env := env4) env4_ok xRot_ok xRot_ok (m := ⟨⟨2, 2⟩, 1⟩) (by decide) (exKeyG3_num big)
+    (by decide) (by decide) (by decide) (by decide)⟩
+
+/-- the parameter sets of the crate's CKKS test suite satisfy the numeric side conditions (decided) -/
+theorem test_parameter_sets_room : ntt120F64.Room ∧ ntt120F128.Room ∧ fft64R19.Room ∧ fft64R17.Room :=
+  ⟨ntt120F64_room, ntt120F128_room, fft64R19_room, fft64R17_room⟩
+
+example : (2 : Int) ^ 52 * (4 * (13 : Int) * 256 * 2 ^ 52) + 8 ≤ 2 ^ (KsDec.bitsOf true - 2) := test_parameter_sets_room.2.1.2.2.2.1
+
+/-- **`ckks_program_correct`.**  For a parameter set whose numeric side conditions hold (decided for `ntt120F64`, `ntt120F128`, `fft64R19`,
+`fft64R17`: `test_parameter_sets_room`), ciphertexts of `S` limbs and well-formed evaluation keys, every program the metadata model accepts
+runs on the data path to the metadata of the model, keeps every ciphertext well formed with balanced digits, and the decoded coefficients
+stay within the explicit budget `xspecRun` (constants `UcOf` for the products, `Ua` for the automorphisms).
+
+Remaining hypotheses: key well-formedness (`TskWF`, `AtkWF`: the C01/C03 statements about generated keys — shape, coverage, balanced
+digits, key relation with `‖E‖∞ ≤ Emax`); the plaintext operands are well formed and have at most `S` limbs (`OpsOK`: the output of the
+float → integer conversion of §11 and `encode`); the initial ciphertexts have balanced digits (`AllOK`), satisfy the metadata invariant of §1
+(`Inv`) and are tracked (`TracksB`: what encryption of an encoded message provides); `ckks_dot_product_ct` is called with one pair or with sides that do not share one `log_delta`
+each (its fused path is not covered); a conjugation is called with its key. -/
+theorem ckks_program_correct (p : ParamSet) (hr : p.Room) {env : Env} (hb : env.base2k = p.b) {mk : MulKey} (hbig : mk.big = p.big)
+    {ak : AutKeys} {s : List Poly} {Emax : Int} {Ua : ℚ} (hUa : 0 ≤ Ua)
+    (ht : TskWF env p.N p.S p.D mk s Emax) (hk : AtkWF env p.N p.S p.D ak s Emax Ua)
+    (ops : List XOp) {pool : DPool} (hp : AllOK env p.N 1 pool) (hS : ∀ c ∈ pool, c.g.size = p.S) (hI : Inv env (DPool.cts pool))
+    (hops : OpsOK env p.N p.S ak (DPool.cts pool) ops) {mp : Ckks.Pool} (hm : run env (DPool.cts pool) (ops.map XOp.toOp) = .ok mp) :
+    ∃ pool', xrun env p.N mk ak pool ops = .ok pool' ∧ DPool.cts pool' = mp ∧ AllOK env p.N 1 pool' ∧ (∀ c ∈ pool', c.g.size = p.S) ∧
+      ∀ τ, TracksB s p.N pool τ →
+        TracksB s p.N pool' (xspecRun env p.N ak (sn 1 s) (UcOf env p.N p.S mk s Emax) Ua (DPool.cts pool) τ ops) :=
+  Ckks.ckks_program_correct p hr hb hbig hUa ht hk ops hp hS hI hops hm
+
+/-- a product, a multiply-add, a single-pair dot product, a product tree of three inputs and a negation: accepted by the metadata model,
+hence executed and tracked -/
+def progC : List XOp := [.mul 2 0 1, .mulAdd false 2 0 1, .dotCt 2 [0] [1], .mulMany 2 [0, 1, 0], .lin (.negAssign 2)]
+
+example (big : Bool) : ∃ pool', xrun env4z 2 ⟨big, zk43⟩ ⟨[], none⟩ pool3 progC = .ok pool' ∧ AllOK env4z 2 1 pool' ∧
+    ∀ τ, TracksB [[1, 1]] 2 pool3 τ →
+      TracksB [[1, 1]] 2 pool' (xspecRun env4z 2 ⟨[], none⟩ (sn 1 [[1, 1]]) (UcOf env4z 2 3 ⟨big, zk43⟩ [[1, 1]] 512) 0 (DPool.cts pool3) τ progC) :=
+  let ⟨pool', h, _, hok, _, ht⟩ := ckks_program_correct (pset4 big) (pset4_room big) (env := env4z) rfl (mk := ⟨big, zk43⟩) rfl (ak := ⟨[], none⟩)
+    (s := [[1, 1]]) (Emax := 512) (Ua := 0) (le_refl _) (zk43_wf big) noKeys_wf progC pool3_ok pool3_S pool3_inv
+    ⟨trivial, fun _ _ => ⟨trivial, fun _ _ => ⟨fun cs ds h1 _ => Or.inl (by rw [getAll_length h1]; rfl),
+      fun _ _ => ⟨trivial, fun _ _ => ⟨trivial, fun _ _ => trivial⟩⟩⟩⟩⟩
+    (mp := ([⟨⟨4, 8⟩, 3⟩, ⟨⟨4, 8⟩, 3⟩, ⟨⟨4, 0⟩, 3⟩] : Ckks.Pool)) (by decide)
+  ⟨pool', h, hok, ht⟩
+
+end Correct
 
 end C16
